@@ -1,7 +1,7 @@
 #!/usr/bin/env python3
 """Confirm and run a batch of small mutants (several per property) written by sub-agents.
 
-usage: simplebatch.py <dir-with-Sxx-subdirs> [--only S01,S02]
+usage: simplebatch.py <dir-with-Sxx-subdirs> [--only S01,S02] [--defer]
 
 For every <dir>/Sxx/patch<k>.diff (+ demo<k>_test.go):
   1. in a scratch worktree: the patch applies, the library builds, the existing suite passes with it; the
@@ -73,7 +73,7 @@ def main():
     if "--only" in sys.argv:
         only = set(sys.argv[sys.argv.index("--only") + 1].split(","))
     items = []
-    for d in sorted(glob.glob(os.path.join(base, "[ST]??"))):
+    for d in sorted(glob.glob(os.path.join(base, "[STU]??"))):
         sid = os.path.basename(d)
         if only and sid not in only:
             continue
@@ -96,7 +96,11 @@ def main():
         key = "%s_%s" % (sid, k)
         entry = {"property": prop, "confirmation": res}
         ok = res["applies"] and res["builds"] and res["suite_passes"] and res["demo"] in ("confirmed", "none")
-        if ok:
+        if ok and "--defer" in sys.argv:
+            # checks are run afterwards, in parallel scratch worktrees: tools/regress.py --set seeded_simple --only ...
+            entry["checks"] = {p: "pending" for p in [prop] + EXTRA.get(prop, [])}
+            entry["first_violation"] = ""
+        elif ok:
             props = [prop] + EXTRA.get(prop, [])
             out = subprocess.run([sys.executable, os.path.join(VERIF, "tools", "seedrun.py"), patch] + props, capture_output=True, text=True).stdout
             entry["checks"] = {p: ("caught" if ("%s: CAUGHT" % p) in out else ("inconclusive" if ("%s: INCONCLUSIVE" % p) in out else "missed")) for p in props}
